@@ -94,7 +94,9 @@ macro_rules! encode_set {
     ($fn:ident, $name:ident) => {
         lazy_static::lazy_static! {
             static ref $name: AsciiSet = {
-                let mut set = percent_encoding::CONTROLS.add(0);
+                // `%` is part of the parser's character class because it introduces an
+                // escape sequence, a literal `%` must therefore always be encoded
+                let mut set = percent_encoding::CONTROLS.add(0).add(b'%');
 
                 for b in 0..=127u8 {
                     if !$fn(b as char) {
